@@ -439,7 +439,9 @@ func classify(in input) string {
 			if v.SSide > 1 || v.DSide > 1 {
 				continue
 			}
-			if in.BufSize < g(v.SSide) || in.BufSize < g(v.DSide) {
+			// F-C23-2 is about the DESTINATION granularity only: a buffer smaller than the SOURCE
+			// granularity still streams on the real code, so a failure there is not this finding
+			if in.BufSize < g(v.DSide) {
 				return "buffer_smaller_than_granularity"
 			}
 		}
